@@ -73,16 +73,9 @@ Definition c08_step_ok (cur floor : N) (st : c08_step) : bool :=
      | None, _ => true
      end.
 
-(* verdict of one step: None fine, Some 1 = the floor is lowered by the unconditional Put of checkCompactRace of a
-   compaction thread (overlapping compactions, finding C08-F1), Some 0 = any other violation *)
+(* verdict of one step: None fine, Some 0 = violation *)
 Definition c08_step_verdict (cur floor : N) (st : c08_step) : option N :=
-  if c08_step_ok cur floor st then None
-  else match s8_op st with
-       | CThread _ PhRacePut =>
-           (* everything but monotonicity must hold *)
-           if c08_step_ok cur 0 st && rec_wfb (s8_rec st) then Some 1 else Some 0
-       | _ => Some 0
-       end.
+  if c08_step_ok cur floor st then None else Some 0.
 
 Definition worse8 (a b : option N) : option N :=
   match a, b with
